@@ -307,6 +307,7 @@ class TradingEnv(gymnasium.Env):
         # The clock of contracts is process-wide: take it back in case another
         # environment has been stepped in the meanwhile.
         AbstractContract.now = self._now
+        nlv_on_entry = self.broker.net_liquidation_value(raise_if_broke=False)
         self._queue_actions.appendleft(action)
         action = self._queue_actions.pop()
         self._process_latent_events()
@@ -319,7 +320,15 @@ class TradingEnv(gymnasium.Env):
         else:
             info = {"_rebalancing": rebalancing}
         self._process_nonlatent_events()
-        reward = self._reward.calculate(self)
+        try:
+            reward = self._reward.calculate(self)
+        except EndOfEpisodeError:
+            if nlv_on_entry <= 0:
+                # Stepping an account which was already broke is an error.
+                raise
+            # The account went broke during this step: the episode ends here.
+            reward = float('nan')
+            self._done = True
 
         # Tear down events to notify observers.
         self._visits[self.now()] += 1
